@@ -485,6 +485,14 @@ async def pump_exchange(pyo_ctx, inner_factory, request: bytes, *, reader: str =
     lead = 0
     while lead < len(plain_sizes) and plain_sizes[lead] == 0 and lead < len(plain_sizes) - 1:
         lead += 1
+    # ... and were flushed to TCP before the response: take their writes off the front of the list
+    lead_bytes = sum(rec_sizes[:lead])
+    k = acc = 0
+    while k < len(tcp_sizes) and acc < lead_bytes:
+        acc += tcp_sizes[k]
+        k += 1
+    if acc == lead_bytes:
+        tcp_sizes = tcp_sizes[k:]
     res = sink.result()
     res.update({"version": version, "eof": state["eof"], "after_close": state["after_close"], "tail": tail,
                 "records": [p for p in plain_sizes[lead:] if p > 0], "tcp": tcp_sizes, "lead_records": lead,
